@@ -518,13 +518,14 @@ func init() {
 		ID:    "C19",
 		Level: "exploration",
 		Assumptions: []string{
-			"structure-aware bounded enumeration of shapes, not byte-level fuzzing (a different family); OCI/tar import and the kubectl-package CLI entry points are not driven (see DESIGN.md §8)",
+			"structure-aware bounded enumeration of shapes, not byte-level fuzzing (a different family); the kubectl-package CLI entry points are not driven (they share the pipeline; see DESIGN.md §8)",
 			"a panic is attributed to the first package-operator.run frame on its stack",
 		},
 		Subs: []*checks.Sub{
 			{Name: "managed-object-status", Shards: func(string) int { return 8 }, Run: runManagedStatus, CrashIsViolation: true},
 			{Name: "object-template", Shards: func(string) int { return 4 }, Run: runTemplate, CrashIsViolation: true},
 			{Name: "package-pipeline", Shards: func(string) int { return 4 }, Run: runPackages, CrashIsViolation: true},
+			{Name: "oci-import", Shards: func(string) int { return 4 }, Run: runOCI, CrashIsViolation: true},
 		},
 	})
 }
